@@ -1017,10 +1017,64 @@ func stageExotic(sink *hx.Sink) {
 	runJobs(jobs, sink, []string{"root"})
 }
 
+// ---- types: media types of stored files (Content-Type of GET/HEAD, getcontenttype) (C01)
+
+func stageTypes(sink *hx.Sink) {
+	contents := map[string]string{"text": "hello\n", "html": "<html><body>x</body></html>", "pdf": "%PDF-1.4\n", "bin": "\x00\x01\x02\xff", "empty": "",
+		"xml": "<?xml version=\"1.0\"?><a/>", "png": "\x89PNG\x0d\x0a\x1a\x0a", "long": strings.Repeat("a", 600) + "\x00"}
+	names := []string{"a.txt", "b.html", "c.ics", "d.vcf", "e.unknownext", "f", "UP.TXT", "g.tar.gz", ".hidden", "trail.", "h.json", "i.PNG", "j.x.y", "k.", "l.css", "m.xml", "n.js", "o.svg", "p.webdavfile"}
+	tree := davx.Dir()
+	i := 0
+	keys := []string{"text", "html", "pdf", "bin", "empty", "xml", "png", "long"}
+	for _, n := range names {
+		tree.Put(n, davx.File(contents[keys[i%len(keys)]]))
+		i++
+	}
+	for _, k := range keys {
+		tree.Put("plain-"+k, davx.File(contents[k]))
+		tree.Put("as-"+k+".txt", davx.File(contents[k]))
+	}
+	tree.Put("col.txt", davx.Dir("inner.html", davx.File(contents["text"]), "sub.d", davx.Dir("deep.pdf", davx.File(contents["html"]))))
+	var reqs []davx.Req
+	var paths []string
+	for _, n := range tree.Names {
+		paths = append(paths, "/"+n, "/"+n+"/", "//"+n, "/col.txt/../"+n, "/"+n+"/.")
+	}
+	paths = append(paths, "/col.txt/inner.html", "/col.txt/sub.d/deep.pdf", "/col.txt/sub.d", "/", "/missing.txt")
+	for _, p := range paths {
+		for _, m := range []string{"GET", "HEAD"} {
+			reqs = append(reqs, davx.NewReq(m, p))
+		}
+	}
+	for _, p := range []string{"/", "/col.txt", "/col.txt/", "/a.txt", "/col.txt/sub.d"} {
+		for _, d := range []string{"0", "1", "infinity"} {
+			for _, pf := range []string{"none", "allprop", "propname"} {
+				r := davx.NewReq("PROPFIND", p)
+				r.Depth, r.PfBody = d, pf
+				reqs = append(reqs, r)
+			}
+		}
+	}
+	// a PUT changes what a later GET says
+	for _, n := range []string{"/new.html", "/a.txt", "/newnoext"} {
+		for _, k := range keys {
+			r := davx.NewReq("PUT", n)
+			r.Body = contents[k]
+			reqs = append(reqs, r, davx.NewReq("GET", n), davx.NewReq("HEAD", n))
+		}
+	}
+	jobs := make(chan job, 4)
+	go func() {
+		jobs <- job{tree: davx.Dir("root", tree), reqs: reqs, hist: true}
+		close(jobs)
+	}()
+	runJobs(jobs, sink, []string{"root"})
+}
+
 func main() {
 	out := flag.String("out", "", "output file")
 	replay := flag.String("replay", "", "file of case lines to re-run")
-	stage := flag.String("stage", "universe", "universe|history|paths|traversal|cond|putfault|putsteps|headers|exotic")
+	stage := flag.String("stage", "universe", "universe|history|paths|traversal|cond|putfault|putsteps|headers|exotic|types")
 	flag.Parse()
 	scratch = os.Getenv("VERIF_SCRATCH")
 	if scratch == "" {
@@ -1104,6 +1158,8 @@ func main() {
 		stageHeaders(sink)
 	case "exotic":
 		stageExotic(sink)
+	case "types":
+		stageTypes(sink)
 	default:
 		fmt.Fprintln(os.Stderr, "unknown stage")
 		os.Exit(2)
